@@ -364,3 +364,117 @@ def hex_blank_variants(rng, hexstr, many=False):
                 gaps[rng.randrange(len(gaps))] += 1
             out.append("".join(" " * g + p for g, p in zip(gaps, pairs)) + " " * gaps[-1])
     return out if many else [out[0], out[1], out[3], out[5], out[6]] + rng.sample(out[8:], min(2, len(out[8:])))
+
+
+# ---- long-running-process soak (check.py): cheap DISTINCT requests of the basic kinds, and corner requests to re-ask
+_FILE_KINDS = {
+    "btc_hd_wallet/bip32.py": ["ckd", "xk"], "btc_hd_wallet/keys.py": ["sec", "priv", "ckd"],
+    "btc_hd_wallet/helper.py": ["h160", "b58"], "btc_hd_wallet/bech32.py": ["b32"],
+    "btc_hd_wallet/bip39.py": ["seed", "mn"], "btc_hd_wallet/bip85.py": ["ckd"], "btc_hd_wallet/script.py": ["h160"],
+    "btc_hd_wallet/base_wallet.py": ["ckd", "xk", "h160", "b58"], "btc_hd_wallet/paper_wallet.py": ["ckd", "b58"],
+    "btc_hd_wallet/wallet_utils.py": ["xk"], "btc_hd_wallet/ripemd.py": ["h160"], "btc_hd_wallet/__main__.py": [],
+}
+
+
+def soak_kinds(pid):
+    import json
+    import os
+    try:
+        props = [json.loads(l) for l in open(os.path.join(os.path.dirname(os.path.dirname(os.path.dirname(
+            os.path.abspath(__file__)))), "properties.jsonl"))]
+        files = next(p["anchors"]["files"] for p in props if p["id"] == pid)
+    except Exception:
+        files = []
+    out = []
+    for f in files:
+        for k in _FILE_KINDS.get(f, []):
+            if k not in out:
+                out.append(k)
+    return out
+
+
+_walk = [None]
+
+
+def _soak_one(kind, rng, corner=False):
+    rb = lambda n: bytes(rng.getrandbits(8) for _ in range(n))
+    if kind == "ckd":
+        k = rng.randrange(1, N)
+        return "ckd P:%s:%s:0:0:0:none %d -" % (hx(k.to_bytes(32, "big")), hx(rb(32)), rng.choice([0, 1, 7]))
+    if kind == "xk":
+        k = rng.randrange(1, N)
+        pl = (0x0488ADE4).to_bytes(4, "big") + bytes([rng.choice([0, 2])]) + rb(4) + rng.choice([0, 5]).to_bytes(4, "big") + \
+            rb(32) + b"\x00" + k.to_bytes(32, "big")
+        form = rng.choice(["s", "b"])
+        return "xk_parse P 0 %s %s %d" % (form, sx(b58check_enc(pl)) if form == "s" else hx(pl), rng.choice([0, 3, 2 ** 31]))
+    if kind == "sec":
+        # (a walk P, P+G, P+2G, ... : one point addition per fresh key instead of a scalar multiplication)
+        import ecdsa
+        if _walk[0] is None or corner:
+            _walk[0] = ecdsa.SECP256k1.generator * rng.randrange(1, N)
+        _walk[0] = _walk[0] + ecdsa.SECP256k1.generator
+        x, y = _walk[0].x(), _walk[0].y()
+        unc = b"\x04" + x.to_bytes(32, "big") + y.to_bytes(32, "big")
+        return "sec_parse " + hx(unc if (corner or rng.random() < 0.5) else bytes([2 + (y & 1)]) + x.to_bytes(32, "big"))
+    if kind == "priv":
+        return "priv_new " + hx(rng.randrange(1, N).to_bytes(32, "big"))
+    if kind == "h160":
+        return "h160 " + hx(rb(rng.choice([20, 33, 65, rng.randint(1, 80)])))
+    if kind == "b58":
+        return "b58ce " + hx(rb(rng.choice([21, 34, rng.randint(1, 40)])))
+    if kind == "b32":
+        from .c11 import indep_encode
+        ver = rng.choice([0, 1])
+        return "b32_dec %s %s" % (sx("bc"), sx(indep_encode("bc", ver, rb(20 if ver == 0 else 32))))
+    if kind == "seed":
+        import unicodedata
+        m, p_ = "w%d x%d" % (rng.getrandbits(40), rng.getrandbits(20)), rng.choice(["", "caf\u00e9", "p%d" % rng.getrandbits(16)])
+        nf = lambda t: unicodedata.normalize("NFKD", t)
+        return "seed %s %s %s %s" % (sx(m), sx(nf(m)), sx(p_), sx(nf(p_)))
+    if kind == "mn":
+        return "mn_from_ent " + sx(rb(rng.choice([16, 20, 24, 28, 32])).hex())
+    raise KeyError(kind)
+
+
+def soak_corner_lines(kinds, rng):
+    """requests to ask at the start of the process and again at its end: one or two of every basic kind, in the forms a
+    key-normalising cache files under another key than it evicts by (33-byte private node keys of parsed nodes,
+    uncompressed / hybrid encodings, the empty byte string, texts that are not in normal form)"""
+    out = []
+    for k in kinds:
+        out.append(_soak_one(k, rng, corner=True))
+        out.append(_soak_one(k, rng, corner=True))
+    if "h160" in kinds:
+        out += ["h160 -", "rmd160 -"]
+    if "seed" in kinds:
+        out.append("seed %s %s %s %s" % (sx("abandon ability"), sx("abandon ability"), sx("caf\u00e9"), sx("cafe\u0301")))
+    if "b58" in kinds:
+        out.append("b58ce 00")
+    return out
+
+
+def soak_filler(kinds, rng):
+    """endless stream of cheap DISTINCT requests, one kind after the other"""
+    while kinds:
+        for k in kinds:
+            yield _soak_one(k, rng)
+
+
+def scribble(v, depth=0):
+    """empty every list / dict / set / bytearray reachable from a value the library handed back (what a caller that
+    re-uses or redacts what it received does)"""
+    if depth > 6:
+        return
+    try:
+        if isinstance(v, dict):
+            for x in list(v.values()):
+                scribble(x, depth + 1)
+            v.clear()
+        elif isinstance(v, list):
+            for x in list(v):
+                scribble(x, depth + 1)
+            v.clear()
+        elif isinstance(v, (set, bytearray)):
+            v.clear()
+    except Exception:
+        pass
